@@ -18,6 +18,7 @@ func analyzeCmd(args []string) int {
 	dir := fs.String("dir", ".", "module dir")
 	seq := fs.Bool("seq", false, "sequential")
 	sanity := fs.Bool("sanity", false, "gob round trip of every fact")
+	sites := fs.Bool("sites", false, "include site identities of InferredMap facts")
 	var kv multi
 	fs.Var(&kv, "flag", "k=v nilaway_config flag")
 	_ = fs.Parse(args)
@@ -26,7 +27,7 @@ func analyzeCmd(args []string) int {
 		k, v, _ := strings.Cut(s, "=")
 		flags[k] = v
 	}
-	res, err := driver.Run(driver.Options{Dir: *dir, Patterns: fs.Args(), Flags: flags, Sequential: *seq, SanityCheck: *sanity})
+	res, err := driver.Run(driver.Options{Dir: *dir, Patterns: fs.Args(), Flags: flags, Sequential: *seq, SanityCheck: *sanity, Sites: *sites})
 	if err != nil {
 		fmt.Fprintln(os.Stderr, err)
 		return 2
